@@ -20,6 +20,9 @@ pub struct Token {
     pub ident: String,
     pub policy: Vec<u8>,
     pub name: Vec<u8>,
+    /// `AnyAsset(..)` terms name the policy through a `policy TP<i> = 0x..;` definition instead of
+    /// writing the hash out
+    pub policy_by_name: bool,
 }
 
 impl Token {
@@ -185,6 +188,8 @@ pub struct Program {
     /// declares the types of the `Misc` datum catalogue
     pub has_misc: bool,
     pub env: Vec<(String, Ty)>,
+    /// the program declares `env` twice, with the same fields
+    pub env_twice: bool,
     pub txs: Vec<TxSpec>,
     /// order in which the top-level sections are written (0: the usual order)
     pub layout: u64,
@@ -221,7 +226,13 @@ impl Program {
         match t {
             Term::Ada(q) => format!("Ada({})", pq(q)),
             Term::Tok(i, q) => format!("{}({})", self.tokens[*i].ident, pq(q)),
-            Term::AnyTok(i, name, q) => format!("AnyAsset(0x{}, {}, {})", hex::encode(&self.tokens[*i].policy), name, pq(q)),
+            Term::AnyTok(i, name, q) => {
+                if self.tokens[*i].policy_by_name {
+                    format!("AnyAsset(TP{}, {}, {})", i, name, pq(q))
+                } else {
+                    format!("AnyAsset(0x{}, {}, {})", hex::encode(&self.tokens[*i].policy), name, pq(q))
+                }
+            }
             Term::Fees => "fees".into(),
             Term::MinUtxo(o) => format!("min_utxo({})", o),
             Term::Input(n) => n.clone(),
@@ -280,6 +291,15 @@ impl Program {
 
     fn source_in_order(&self) -> String {
         let mut s = String::new();
+        if self.env_twice && !self.env.is_empty() {
+            // `env` declared twice, field for field the same (whichever block the front end keeps,
+            // the program means the same)
+            s.push_str("env {\n");
+            for (n, t) in self.env.iter() {
+                s.push_str(&format!("    {}: {},\n", n, pty(t)));
+            }
+            s.push_str("}\n\n");
+        }
         if !self.env.is_empty() {
             s.push_str("env {\n");
             for (n, t) in &self.env {
@@ -292,6 +312,11 @@ impl Program {
         }
         for (n, h) in &self.policies {
             s.push_str(&format!("policy {} = 0x{};\n", n, hex::encode(h)));
+        }
+        for (i, t) in self.tokens.iter().enumerate() {
+            if t.policy_by_name {
+                s.push_str(&format!("policy TP{} = 0x{};\n", i, hex::encode(&t.policy)));
+            }
         }
         s.push('\n');
         for t in &self.tokens {
@@ -681,6 +706,7 @@ pub fn gen_program(t: &mut Tape, cfg: &GenCfg) -> Program {
             policy: std::iter::repeat(0x11 * (pol_id as u8 + 1)).take(28).collect(),
             // the empty asset name is legal (and is where "no name" and "empty name" can be confused)
             name: if t.chance(1, 6) { vec![] } else { TOKEN_NAMES[i].as_bytes().to_vec() },
+            policy_by_name: cfg.profile != Profile::Selection && t.chance(1, 4),
         });
     }
     if cfg.profile == Profile::Rich && t.chance(1, 3) {
@@ -695,6 +721,11 @@ pub fn gen_program(t: &mut Tape, cfg: &GenCfg) -> Program {
         if t.chance(1, 3) {
             p.env.push(("ev1".to_string(), Ty::Int));
         }
+        if t.chance(1, 3) {
+            p.env.push(("ev2".to_string(), Ty::Bytes));
+            p.env.push(("ev3".to_string(), Ty::Int));
+        }
+        p.env_twice = t.chance(1, 4);
     }
     let ntx = 1 + t.index(cfg.max_txs.max(1));
     for k in 0..ntx {
@@ -964,11 +995,27 @@ fn gen_tx(t: &mut Tape, cfg: &GenCfg, p: &mut Program, k: usize) -> TxSpec {
             }
         }
         if t.chance(1, 10) {
-            tx.directives.push(Directive::NativeWitness(t.draw(6) as u8));
+            let k = t.draw(6) as u8;
+            tx.directives.push(Directive::NativeWitness(k));
+            // the attached native script may be the minting policy of a token of this program: its
+            // policy id is then the script's hash (blake2b-224 of 0x00 || script), not a free choice
+            if !tx.mints.is_empty() && t.chance(1, 2) {
+                let mut pre = vec![0u8];
+                pre.extend(native_script(k));
+                let tok = tx.mints[0].tok;
+                p.tokens[tok].policy = crate::txread::blake2b224(&pre);
+            }
         }
         if t.chance(wn, wd + 2) && p.parties.iter().all(|x| x.addr.len() == 57) {
             tx.directives.push(Directive::VoteDeleg {
-                drep: vec![0x77; 28],
+                // a key hash of 28 bytes; its first byte may look like the header of another id form
+                drep: {
+                    let first = *t.pick(&[0x77u8, 0x22, 0x23, 0x00, 0xFF]);
+                    let len = *t.pick(&[28usize, 28, 28, 29, 27]);
+                    let mut d = vec![0x77u8; len];
+                    d[0] = first;
+                    d
+                },
                 stake: t.index(np),
             });
         }
@@ -1576,6 +1623,16 @@ pub fn gen_args(t: &mut Tape, p: &Program, tx: &TxSpec, chain: &SimChain, dist: 
                 let b = t.chance(1, 2);
                 shown.insert(key.clone(), format!("{}", b));
                 args.insert(key, ArgValue::Bool(b));
+            }
+            Ty::UtxoRef if !ref_kinds.is_empty() && t.draw(4) == 3 => {
+                // the same outpoint as another reference argument of this request (two blocks pinning
+                // one UTxO, a reference block naming what an input spends)
+                let prev: Vec<String> = ref_kinds.keys().cloned().collect();
+                let from = prev[t.index(prev.len())].clone();
+                let v = args.get(&from).cloned().unwrap();
+                shown.insert(key.clone(), format!("{} (same as {from})", shown.get(&from).cloned().unwrap_or_default()));
+                ref_kinds.insert(key.clone(), "same-as-another");
+                args.insert(key, v);
             }
             Ty::UtxoRef => {
                 // own (party 0) / foreign / dangling
